@@ -160,6 +160,11 @@ def run(ctx):
     from .c18ops import operator_rule, surface_operator_rule, clenshaw_curtis_rule, adaptive_bookkeeping_rule
 
     ctx.attempt(clenshaw_curtis_rule, ctx)
+    ctx.attempt(strain_path_rule, ctx)
+    from . import c05 as _c05
+
+    # 'under the midpoint scheme, free motion conserves kinetic plus stored energy': the scheme relations the balance rests on
+    ctx.attempt(_c05.midpoint_lemma_rule, ctx, "R18.19")
     ctx.attempt(adaptive_bookkeeping_rule, ctx)
     from .c16 import active_stress_guard_rule as _active_stress_guard_rule
 
@@ -673,3 +678,49 @@ def kinematics_rule(ctx):
             r.fail(fDeta.qualname, f"Deta:dim{dim}", fDeta.file, fDeta.lineno, "Compute_Deta", f"dim {dim}: {bad}")
         else:
             r.ok(f"dim {dim}: Deta == d(De . flat(grad v)) / d flat(grad u)")
+
+
+def strain_path_rule(ctx, rid="R18.18"):
+    """'With the energy-conserving stress options under the midpoint scheme ... conserves energy': the time-quadrature
+    stress integrates dW/de along the strain path C(s) = C_n + s (C_{n+1} - C_n), s = 0 at the OLD state.  The class that
+    holds a point of the path, `_StrainPathState`, is interpreted on symbolic end strains: `Compute_C()` of the state
+    built with abscissa s must be C_n + s (C_{n+1} - C_n) - for numeric and for symbolic s - so that the s-weighted
+    tangent (R18.5) is the derivative with respect to u_{n+1} of the stress it goes with."""
+    from types import SimpleNamespace
+
+    from ..xarray import XArray
+    from ..femchain import XFe, fe_hook_full
+
+    repo = ctx.repo
+    ci = repo.cls("EasyFEA.FEM.Operators.NonLinear._StrainPathState")
+    f = ci.methods["__init__"]
+    fC = ci.methods["Compute_C"]
+    r = ctx.rule(rid, "_StrainPathState(state_n, state_np1, s).Compute_C() == C_n + s (C_np1 - C_n): the old state at s = 0, the new one at s = 1, for numeric and symbolic abscissae", min_instances=5)
+    mk = lambda nm: XFe((1, 1, 3, 3), [Poly.var(f"{nm}{i}{j}") for i in range(3) for j in range(3)])
+    Cn, Cn1 = mk("a"), mk("b")
+    g = SimpleNamespace(Ne=1)
+    sn = SimpleNamespace(groupElem=g, displacement=Opaque("u_n"), matrixType="mass", Compute_C=lambda: Cn)
+    s1 = SimpleNamespace(groupElem=g, displacement=Opaque("u_np1"), matrixType="mass", Compute_C=lambda: Cn1)
+
+    def hook(fn, args, kwargs):
+        fi = getattr(fn, "finfo", None) or (fn if isinstance(fn, FuncInfo) else None)
+        if fi is not None and fi.name == "__init__" and fi.cls is not None and fi.cls is not ci:
+            return None
+        return fe_hook_full(fn, args, kwargs)
+
+    for s in (Q(0), Q(1), Q(1, 2), Q(1, 7), Poly.var("s")):
+        r.instance(fn=f.qualname)
+        I = Interp(repo)
+        I.call_hook = hook
+        obj = XObj(ci, {})
+        try:
+            I.call_function(f, [sn, s1, s], self_obj=obj)
+            got = XArray.from_nested(I.call_function(fC, [], self_obj=obj))
+        except XRaise as e:
+            r.fail(f.qualname, f"path:{s}", f.file, f.lineno, "_StrainPathState.__init__", f"s = {s}: raises {e}")
+            continue
+        want = [Poly.of(a) + s * (Poly.of(b) - Poly.of(a)) for a, b in zip(Cn.data, Cn1.data)]
+        if got.shape == Cn.shape and all(is_zero(Poly.of(x) - w) for x, w in zip(got.data, want)):
+            r.ok(f"s = {s}: C(s) = C_n + s (C_np1 - C_n)")
+        else:
+            r.fail(f.qualname, f"path:{s}", f.file, f.lineno, "_StrainPathState.__init__", f"s = {s}: Compute_C()[0, 0, 0, 0] is {got.data[0]!r}, the path gives {want[0]!r}: the abscissa runs from the new state to the old one (or off the segment): the quadrature nodes, their s-weighted tangent and the end-point shortcuts (s = 0 -> state_n, s = 1 -> state_np1) no longer belong to one path and S_quad : de != dW")
